@@ -81,6 +81,31 @@ def run_c11(ctx):
                 if not (lo - radi <= midp <= hi + radi) or not (lo <= midp <= hi + (0 if ver == "Google" else 0)):
                     ctx.violation("property", "reply MIDP %d (%s) is not the clock reading taken while the batch was processed [%d, %d]" % (midp, ver, lo, hi),
                                   {"cmd": "serve", "cfg": list(s["cfg"]), "seed": s["seed"], "lines": slines, "round": k})
+    # ---- the clock is read when EACH batch is signed: requests stamped with the sender's clock just
+    # before send_to, some queued before the drain starts and the rest sent by a second thread while the
+    # server is draining; a midpoint can never precede the moment its request was sent, nor follow the
+    # moment the harness had every reply
+    sessions = [["serve new %d 0 0 0 %s" % (b, srvmod.SEED), "serve race %d %d %d" % (pre, dur, gap), "serve drop"]
+                for b, pre, dur, gap in ((1, 60, 150, 200), (1, 80, 300, 100), (4, 60, 200, 150), (64, 30, 100, 300))]
+    for sess, out in zip(sessions, vlib.run_sessions(vlib.HARNESS, sessions, "c11race", shards=2)):
+        ctx.evaluations += 1
+        rep = {"cmd": "race", "lines": sess, "out": [o[:2000] for o in out]}
+        o = out[1]
+        if not o.startswith("OK") or "RACE=" not in o:
+            ctx.violation("property", "server did not return normally while requests arrived during the drain: " + o[:80], rep); continue
+        t_end = int(o.split("END=")[1].split()[0])
+        pairs = [tuple(int(x) for x in pr.split(":")) for pr in o.split("RACE=")[1].split(",") if pr]
+        ctx.count("race_replies", len(pairs))
+        early = [(ts, mp) for ts, mp in pairs if mp < ts]
+        late = [(ts, mp) for ts, mp in pairs if mp > t_end]
+        if early:
+            ts, mp = early[0]
+            ctx.violation("property", "%d of %d replies carry a midpoint EARLIER than the moment their request was sent (first: sent %d us, MIDP %d us, %d us stale): the clock was not read when the batch was signed" % (len(early), len(pairs), ts, mp, ts - mp), rep); continue
+        if late:
+            ctx.violation("property", "a reply carries a midpoint later than the harness clock after it was received", rep); continue
+        if len(pairs) >= 50:
+            ctx.nontriv("race:" + sess[1])
+        ctx.traces_validated += 1
     proof_verdict(ctx)
 
 
@@ -142,12 +167,14 @@ def run_c10(ctx):
                 if len(vs) >= 2:
                     ctx.nontriv("cert:" + rt.fnv64(line.encode()))
     ctx.sample({"line": clines[-1], "impl": impl[-1][:300]})
-    # ---- repeated server starts with one seed: same identity, every CERT verifies (spec verifier)
+    # ---- repeated server starts, seeds A, B, C, A, B, C ... in ONE process (whatever outlives a
+    # Server object — a static, a cache — is shared): same seed => same identity, another seed =>
+    # that seed's identity; every CERT verifies under the announced key (spec verifier)
     eng = srvmod.Engine(ctx, "C02")
-    for k in range(6 if not ctx.thorough else 50):
+    for k in range(7 if not ctx.thorough else 50):
         rounds = [srvmod.gen_round(r, 3, 6, None, p_invalid=0.0)]
         eng.add((8, 0, 3, 0), rounds, 3, seed=rt.hx(seeds[3 + (k % 3)]))
-    eng.run()
+    eng.run(shards=1)
     eng.judge()
     pks = {}
     for s, _, il, _ in eng.results:
